@@ -56,6 +56,17 @@ CLAIMED = {
         "indent only required to be spaces; hooks are thin re-exports.",
         "DESIGN.md section 4, C20",
     ),
+    "C02": (
+        "proptest random search over intended invocations and their spellings (generated from a grammar of the documented forms), model-based oracle: expected observation computed from the intended invocation, compared with the parse result; shrinking",
+        "For conventional command trees an intended invocation (occurrences with values, optional `--`, subcommand chain) is generated "
+        "first, then spelled in one of the forms the documented grammar makes equivalent (long/alias/prefix/short/cluster/attached/=/"
+        "separated/delimiter-joined/terminator/flag-subcommand forms). The parse must succeed and report, per level, exactly the "
+        "supplied ids with exactly the intended raw values per occurrence, the documented logical indices and the intended subcommand "
+        "chain: nothing invented, dropped, duplicated or moved.",
+        "The expected-result rules (~300 lines, restated from the Arg/ArgMatches documentation) are the trusted base; only unambiguous "
+        "spellings are generated; no hyphen-value settings, no globals.",
+        "DESIGN.md sections 3.3 and 4, C02",
+    ),
     "C03": (
         "proptest random search over generated relation graphs x well-formed argv subsets; oracle = independent evaluation of every declared relation on the explicit (CommandLine/Env) ids of each successful parse, with the documented exemptions; shrinking",
         "Generated commands carry random conflict / requires / requires_if / group / exclusive / required_if_eq / required_unless / override "
